@@ -17,14 +17,26 @@ def parseSeqs (s : String) : Option (List (List Entry)) :=
 
 def parseObs (kv : List (String × String)) : Option Obs := do
   pure { endT := ← getI? kv "end", err := getS kv "err", total := ← getN? kv "total", bad := ← getN? kv "bad",
-         net := getS kv "net" "-", tag := getS kv "tag" "-", seqs := ← parseSeqs (getS kv "seq") }
+         net := getS kv "net" "-", tag := getS kv "tag" "-", offs := ← parseInts (getS kv "offs"),
+         seqs := ← parseSeqs (getS kv "seq") }
 
-/-- duration of `once:N` / `const:OPS:MS` joined by `+`, ns -/
+def parseProcObs (kv : List (String × String)) : Option ProcObs := do
+  pure { rc := getS kv "rc", total := ← getN? kv "total", fired := ← getN? kv "fired", disc := ← getN? kv "disc",
+         bad := ← getN? kv "bad", served := ← getN? kv "served" }
+
+/-- duration of `once:N` / `const:OPS:MS` / `line:FROM:TO:MS` / `step:FROM:TO:STEP:MS` (MS per step) joined by `+`, ns -/
 def profDur (p : String) : Option Int :=
   (p.splitOn "+").foldlM (init := (0 : Int)) fun acc seg =>
     match seg.splitOn ":" with
     | ["once", _] => some acc
     | ["const", _, ms] => (ms.toInt?).map (fun m => acc + m * 1000000)
+    | ["line", _, _, ms] => (ms.toInt?).map (fun m => acc + m * 1000000)
+    | ["step", f, t, st, ms] => do
+        let f ← f.toInt?; let t ← t.toInt?; let st ← st.toInt?; let m ← ms.toInt?
+        if st ≤ 0 || t < f then none
+        else
+          let steps : Int := if f == t then 1 else (t - f) / st + 1
+          some (acc + steps * m * 1000000)
     | _ => none
 
 def parseInput (kv : List (String × String)) : Option Input := do
@@ -34,7 +46,8 @@ def parseInput (kv : List (String × String)) : Option Input := do
   else if mode == "engine" then
     let resp ← parseInts (getS kv "resp" "0")
     pure { mode, discard := getS kv "discard" == "1", profDur := ← profDur (getS kv "prof"),
-           maxResp := resp.foldl (fun a b => max a (b * 1000000)) 0, cancelled := (lookup kv "cancel").isSome }
+           maxResp := resp.foldl (fun a b => max a (b * 1000000)) 0, cancelled := (lookup kv "cancel").isSome,
+           perInst := getS kv "perinst" == "1" }
   else none
 
 /-- one iteration of the instance loop as observed, with the clock reading placed at `now` -/
@@ -50,7 +63,7 @@ def decOf : List Ev → Char
 /-- Run the (repaired) model over one instance's observed history twice: with every clock reading at the earliest
 possible instant (`pick`) and at the latest (`ret`).  Returns the predicted entries and the number of decisions on which the
 two runs differ (those are copied from the observation). -/
-def predictSeq (discard : Bool) : Waiter → Waiter → List Entry → List Entry × Nat
+def predictSeq (discard cancelled : Bool) : Waiter → Waiter → List Entry → List Entry × Nat
   | _, _, [] => ([], 0)
   | wlo, whi, e :: rest =>
     let ilo := iterOf e e.pick
@@ -59,21 +72,37 @@ def predictSeq (discard : Bool) : Waiter → Waiter → List Entry → List Entr
     let dhi := decOf (runLoop .fresh discard whi [ihi]).1
     let wlo' := (waitV .fresh wlo ilo.env).w
     let whi' := (waitV .fresh whi ihi.env).w
-    let (ps, amb) := predictSeq discard wlo' whi' rest
-    if dlo == dhi then ({ e with dec := dlo } :: ps, amb) else (e :: ps, amb + 1)
+    let (ps, amb) := predictSeq discard cancelled wlo' whi' rest
+    -- in a cancelled run `IsSlowDown` may have seen the done context (answers false): a predicted discard that was fired is
+    -- not decidable from the observation
+    if dlo == dhi && !(cancelled && dlo == 'D' && e.dec == 'F') then ({ e with dec := dlo } :: ps, amb)
+    else (e :: ps, amb + 1)
 
 def renderSeqs (ss : List (List Entry)) : String :=
   "|".intercalate (ss.map fun s => ",".intercalate (s.map fun e => s!"{e.tok}:{e.pick}:{e.ret}:{e.dec}"))
 
+def handleProc (kv : List (String × String)) (impl : String) : String × String :=
+  let given : Option (Option Bool) := match getS kv "given" with
+    | "none" => some none
+    | "true" => some (some true)
+    | "false" => some (some false)
+    | _ => none
+  match given, parseProcObs (parseKV impl) with
+  | some g, some o => ("-", judgeProc g o)
+  | none, _ => ("-", "fail:driver:unparsable input")
+  | _, none => ("-", s!"fail:crash:unparsable observation {impl.take 120}")
+
 def handle : Handler := fun input impl =>
+  if getS (parseKV input) "mode" == "proc" then handleProc (parseKV input) impl else
   match parseInput (parseKV input), parseObs (parseKV impl) with
   | some i, some o =>
-    let pr := o.seqs.map (predictSeq i.discard Waiter.init Waiter.init)
+    let pr := o.seqs.map (predictSeq i.discard i.cancelled Waiter.init Waiter.init)
     let seqs := pr.map (·.1)
     let amb := (pr.map (·.2)).foldl (· + ·) 0
     let anyD := seqs.any (·.any (·.dec == 'D'))
     let (net, tag) := if i.mode == "engine" && anyD then (toString discardNetCode, discardTag) else ("-", "-")
-    let mobs := s!"end={o.endT} err={o.err} total={o.total} bad=0 net={net} tag={tag} seq={renderSeqs seqs}"
+    let offs := if i.mode == "engine" then s!" offs={",".intercalate (o.offs.map toString)}" else ""
+    let mobs := s!"end={o.endT} err={o.err} total={o.total} bad=0 net={net} tag={tag}{offs} seq={renderSeqs seqs}"
     let v := judge i o
     let v := if v == "ok" && amb > 0 then s!"skip:inconclusive-{amb}-decisions-inside-the-reading-interval" else v
     (mobs, v)
